@@ -123,7 +123,11 @@ def fields_read(ctx: Ctx, f: Func, roots: Dict[str, str], depth: int = 0, _seen:
                     for kw in n.keywords:
                         if kw.arg and isinstance(kw.value, ast.Name) and kw.value.id in roots:
                             sub_roots[kw.arg] = roots[kw.value.id]
-                    sub = fields_read(ctx, m, sub_roots, depth + 1, _seen)
+                    # a thin wrapper around a parameterised helper (`return self._cover(other, attr="srcaddr")`) is read as
+                    # the helper's body with the constants put in (getattr(self, "srcaddr") -> self.srcaddr)
+                    from .normalise import normalised
+
+                    sub = fields_read(ctx, normalised(ctx, m, "delegation,getattr"), sub_roots, depth + 1, _seen)
                     for k, v in sub.items():
                         out.setdefault(k, set()).update(v)
     return out
@@ -157,7 +161,9 @@ def expr_fields(ctx: Ctx, f: Func, expr: ast.AST, roots: Dict[str, str]) -> Dict
                     for kw in n.keywords:
                         if kw.arg and isinstance(kw.value, ast.Name) and kw.value.id in roots:
                             sub_roots[kw.arg] = roots[kw.value.id]
-                    for k, v in fields_read(ctx, m, sub_roots).items():
+                    from .normalise import normalised
+
+                    for k, v in fields_read(ctx, normalised(ctx, m, "delegation,getattr"), sub_roots).items():
                         out.setdefault(k, set()).update(v)
     return out
 
